@@ -156,6 +156,47 @@ def gen_image(rng, kind, P):
             if rng.chance(1, 2):
                 im.set(0, b, ZZ[rng.range(1, 63)], rng.choice([1, -1, 2, -7, acmax]))
         return im
+    if kind == "deephuff":
+        # (run,size) symbol counts shaped like Fibonacci numbers over n symbols: the plain Huffman tree of the
+        # optimised AC table is n-1 .. n levels deep (> 16), so jpeg_gen_optimal_table must limit the lengths
+        # counts 1,2,3,5,8,..: with the pseudo-symbol (count 1) every prefix sum stays strictly below the count
+        # two places further on, so the tree is a single chain; the EOB symbol (= number of blocks, padded with
+        # empty blocks) takes one place of the chain.  n+1 chain elements => depth n+1 > 16.
+        n = rng.range(17, 19) if P == 8 else rng.range(17, 20)
+        maxsz = 10 if P == 8 else 14
+        syms = rng.shuffle([(r, z) for r in range(0, 5) for z in range(1, maxsz + 1)])[:n]
+        chain = [1, 2]
+        while len(chain) < n + 1:
+            chain.append(chain[-1] + chain[-2])
+        jeob = n - 4
+        while True:
+            counts = chain[:jeob] + chain[jeob + 1:]
+            occ = []
+            for (r, z), c in zip(syms, counts):
+                occ += [(r, z)] * c
+            occ = rng.shuffle(occ)
+            blocks, curb, pos = [], [], 0
+            for r, z in occ:
+                if pos + r + 1 > 62:
+                    blocks.append(curb); curb, pos = [], 0
+                pos += r + 1
+                v = rng.range(1 << (z - 1), (1 << z) - 1)
+                curb.append((pos, v if rng.chance(1, 2) else -v))
+            if curb:
+                blocks.append(curb)
+            if len(blocks) <= chain[jeob]:
+                break
+            jeob += 1
+        blocks = rng.shuffle(blocks + [[] for _ in range(chain[jeob] - len(blocks))])
+        wbk = next(w for w in rng.shuffle(range(20, 200)) + [1] if len(blocks) % w == 0)
+        im = Image(P, wbk * 8, (len(blocks) // wbk) * 8, [(1, 1)])
+        im.kind = kind
+        for bi_, cb in enumerate(blocks):
+            if rng.chance(1, 3):
+                im.set(0, bi_, 0, rng.range(-60, 60))
+            for pz, v in cb:
+                im.set(0, bi_, ZZ[pz], v)
+        return im
     if kind in ("denseref", "denseref-new", "denseref-part"):
         # long runs of blocks whose band is (almost) completely already-nonzero in an AC refinement scan:
         # every block adds up to 63 correction bits to the BE buffer (MAX_CORR_BITS = 1000)
@@ -315,8 +356,12 @@ def special_configs(rng, im):
         pick = lambda: rng.choice(["ri=65535", "ri=65536", "ri=%d" % rng.range(65537, m + 5), "ri=100000", "ri=%d" % (m - 1),
                                    "rows=%d" % rows_over, "rows=%d" % (rows_over + rng.range(1, 5)), "rows=%d" % max(1, rows_over - 1)])
         over = lambda: rng.choice(["ri=65536", "ri=%d" % rng.range(65537, m - 1), "rows=%d" % rows_over, "rows=%d" % (rows_over + 1)])
-        return [("opt", "src=a opt=1 " + over()), ("def", "src=a opt=0 " + pick()), ("prog", "src=a prog=1 " + pick()),
-                ("arith", "src=a arith=1 " + over()), ("trans", "src=p opt=1 " + pick())]
+        return [("opt", "src=a nobi nosu opt=1 " + over()), ("def", "src=a nobi opt=0 " + pick()), ("prog", "src=a nobi nosu prog=1 " + pick()),
+                ("arith", "src=a nobi nosu arith=1 " + over()), ("trans", "src=p nobi nosu opt=1 " + pick())]
+    if im.kind == "deephuff":
+        return [("opt", "src=a opt=1"), ("script", "src=a scans=0:0:0:0:0/0:1:63:0:0"), ("prog", "src=a prog=1"),
+                ("script", "src=a ri=%d scans=0:0:0:0:%d/0:1:%d:0:0/0:%d:63:0:0/0:0:0:1:0" % (rng.choice([0, 7]), 1, 20, 21)),
+                ("trans", "src=p opt=1 ri=%d" % rng.choice([1, 50]))]
     sc = "scans=" + script_str(refinement_script(rng, im))
     return [("script", "src=a " + sc), ("script", "src=a %s ri=%d" % (sc, rng.choice([1, 2, 7, 16, 17, 40]))),
             ("opt", "src=a opt=1"), ("trans", "src=p scans=" + script_str(refinement_script(rng, im))),
@@ -606,7 +651,7 @@ def run(ctx):
                 elif l.startswith("img "):
                     cases.append(rebuild_case(l))
     kinds = ["dense", "sparse", "extreme", "runs", "planes", "zero"]
-    nimg = ctx.n(72, 2500)
+    nimg = ctx.n(64, 2500)
     for i in range(nimg):
         kind = kinds[i % len(kinds)] if i < 3 * len(kinds) else rng.choice(kinds)
         P = 12 if ((i // len(kinds)) + i) % 3 == 2 else 8
@@ -619,11 +664,11 @@ def run(ctx):
         im = gen_image(rng, kind, P)
         im.model_variants = {1, 2} if not ctx.thorough() else None
         m = im.mcus_interleaved()
-        cfgs = [("prog", "src=a prog=1"),
-                ("script", "src=a scans=" + script_str(random_complete_script(rng, im, max_al=rng.choice([0, 1, 2])))),
-                ("opt", "src=a opt=1 ri=%d" % rng.choice([0, 32767, 32768, 40000, m - 1])),
-                ("prog", "src=a prog=1 ri=%d" % rng.choice([32767, 32768, 32769, 33000, 65535])),
-                ("trans", "src=p arith=1")]
+        cfgs = [("prog", "src=a nobi prog=1"),
+                ("script", "src=a nobi nosu scans=" + script_str(random_complete_script(rng, im, max_al=rng.choice([0, 1, 2])))),
+                ("opt", "src=a nobi nosu opt=1 ri=%d" % rng.choice([0, 32767, 32768, 40000, m - 1])),
+                ("prog", "src=a nobi nosu prog=1 ri=%d" % rng.choice([32767, 32768, 32769, 33000, 65535])),
+                ("trans", "src=p nobi nosu arith=1")]
         cases.append((case_line(im, cfgs), "img-%s-%d" % (kind, P), im, cfgs))
     # AC refinement scans that overflow the correction-bit buffer; scans with more than 65535 MCUs
     for j in range(ctx.n(8, 120)):
@@ -632,6 +677,10 @@ def run(ctx):
         im = gen_image(rng, kind, P)
         cfgs = special_configs(rng, im)
         cases.append((case_line(im, cfgs), "img-%s-%d" % (kind, P), im, cfgs))
+    for j in range(ctx.n(2, 30)):
+        im = gen_image(rng, "deephuff", 12 if j % 3 == 2 else 8)
+        cfgs = special_configs(rng, im)
+        cases.append((case_line(im, cfgs), "img-deephuff-%d" % im.P, im, cfgs))
     for j in range(ctx.n(1, 6)):
         im = gen_image(rng, "bigmcu", 8)
         cfgs = special_configs(rng, im)
@@ -642,7 +691,7 @@ def run(ctx):
 
 
 def strip_px(l):
-    return " ".join(t for t in l.split(" ") if not t.startswith("px="))
+    return " ".join(t for t in l.split(" ") if not (t.startswith("px=") or t.startswith("bi=")))
 
 
 def case_line(im, cfgs):
@@ -767,6 +816,19 @@ def run_cases(ctx, cases, exes, drv, flavours):
                 elif w != "w=0":
                     ctx.violation("decoder warns on the library's own output under '%s' (%s build, %s)" % (cfg[:160], fl, w), rep,
                                   signature="warn:%s" % fam)
+                su = next((t for t in f[5:] if t.startswith("su=")), "su=skip")
+                bi = next((t for t in f[5:] if t.startswith("bi=")), "bi=skip")
+                if su.startswith("su=0"):
+                    ctx.violation("decoding through a suspending source gives different coefficients than the one-buffer decode "
+                                  "under '%s' (%s build): %s (chunk size:c,block,k:got/expected)" % (cfg[:160], fl, su), rep,
+                                  signature="suspend-mismatch:%s" % fam)
+                if bi.startswith("bi=error") and bi != "bi=error:FRACT_SAMPLE_NOTIMPL":
+                    ctx.violation("buffered-image decode fails under '%s' (%s build): %s" % (cfg[:160], fl, bi), rep,
+                                  signature="buffered-error:%s" % fam)
+                elif bi != "bi=skip" and not bi.startswith("bi=error") and not px.startswith("px=error") and bi[3:].split("/")[0] != px[3:]:
+                    ctx.violation("buffered-image mode (an output pass per scan, then the final pass) ends in a different image than the "
+                                  "plain decode under '%s' (%s build): final %s vs %s" % (cfg[:160], fl, bi, px), rep,
+                                  signature="buffered-mismatch:%s" % fam)
                 if not px.startswith("px=error"):
                     pxs.setdefault(px, []).append(cfg)
                 elif px != "px=error:FRACT_SAMPLE_NOTIMPL":    # documented limitation of jdsample.c, not an entropy matter
